@@ -84,9 +84,50 @@ class Machine:
     def const(self, v):
         return [c((v >> i) & 1) for i in range(self.W)]
 
+    # widths of the builtin integer types (LP64); anything else (typedefs of the storage word,
+    # class types) is taken as the full word
+    WIDTHS = {"unsigned int": (32, False), "int": (32, True), "unsigned short": (16, False),
+              "short": (16, True), "unsigned char": (8, False), "signed char": (8, True),
+              "char": (8, True), "unsigned long": (64, False), "long": (64, True),
+              "unsigned long long": (64, False), "long long": (64, True)}
+
+    def norm(self, v, ty):
+        """Bring a W-bit vector into the value range of the C++ type `ty`: an unsigned type
+        narrower than the word is zero-extended, a signed one sign-extended (so that a later
+        implicit conversion to the word type is the identity on the vector)."""
+        t = (ty or "").replace("const ", "").strip()
+        if t not in self.WIDTHS:
+            return v
+        w, signed = self.WIDTHS[t]
+        if w >= self.W:
+            return v
+        low = list(v[:w])
+        ext = low[w - 1] if signed else c(0)
+        return low + [ext] * (self.W - w)
+
     def expr(self, n, env):
+        # clang's own constant folding knows the operand widths and conversions
+        if n is not None and "cval" in n and n["k"] != "CXXBoolLiteralExpr" \
+                and (n.get("ty") or "").replace("const ", "") != "bool":
+            try:
+                return self.const(int(n["cval"]) % (1 << self.W))
+            except ValueError:
+                pass
+        if n["k"] in ("ImplicitCastExpr", "ParenExpr", "ExprWithCleanups", "MaterializeTemporaryExpr",
+                      "ConstantExpr", "CXXStaticCastExpr", "CXXFunctionalCastExpr",
+                      "SubstNonTypeTemplateParmExpr") and n["c"]:
+            inner = n["c"][0] if n["k"] == "CXXFunctionalCastExpr" else n["c"][-1]
+            if n.get("cast") == "IntegralToBoolean":
+                bits = self.expr(inner, env)
+                b = c(0)
+                for x in bits:
+                    b = mk("or", b, x)
+                return [b] + [c(0)] * (self.W - 1)
+            return self.norm(self.expr(inner, env), n.get("ty"))
+        return self.norm(self.expr_(n, env), n.get("ty"))
+
+    def expr_(self, n, env):
         n0 = n
-        n = strip(n, also=("CXXStaticCastExpr",))
         k = n["k"]
         if k == "CXXFunctionalCastExpr":
             return self.expr(n["c"][0], env)
